@@ -191,6 +191,28 @@ m('C20', 'compiled-gets-ignorecase', SB, "                p = self._coerce_expec
 m('C20', 'exact-type-error-late', SB, "            self._pattern_type_err(pattern)\n\n        try:\n            pattern_list = iter(pattern_list)", "            return self._coerce_expect_string(str(pattern))\n\n        try:\n            pattern_list = iter(pattern_list)", 'expect_exact converts invalid entries with str()')
 
 
+# ---- faults aimed at the dimensions added after the coverage measurement and seeded rounds 3-5
+m('C05', 'eintr-retry-negative-timeout', UT, "                    if timeout < 0:\n                        return([], [], [])\n", "",
+  'select wrapper: a retry after EINTR with the time used up passes a negative timeout on')
+m('C05', 'eintr-retry-negative-timeout-poll', UT, "                    if timeout < 0:\n                        return []\n", "",
+  'poll wrapper: the same')
+m('C06', 'dead-child-no-holder-eof', PS, "            self.flag_eof = True\n            raise EOF('End Of File (EOF). Braindead platform.')", "            raise TIMEOUT('Timeout exceeded.')",
+  'child dead, terminal held open by a grandchild: TIMEOUT for ever instead of EOF')
+m('C10', 'terminate-false-after-sigint-death', PS, "            self.kill(signal.SIGINT)\n            time.sleep(self.delayafterterminate)\n            if not self.isalive():\n                return True\n",
+  "            self.kill(signal.SIGINT)\n            time.sleep(self.delayafterterminate)\n            if not self.isalive():\n                return False\n",
+  'terminate() says False although the child died from SIGINT and was reaped')
+m('C14', 'legacy-async-keyword-ignored', SB, "        if 'async' in kw:\n            async_ = kw.pop('async')\n        if kw:\n            raise TypeError(\"Unknown keyword arguments: {}\".format(kw))\n\n        exp = Expecter(self, searcher_re(pattern_list), searchwindowsize)",
+  "        if 'async' in kw:\n            kw.pop('async')\n        if kw:\n            raise TypeError(\"Unknown keyword arguments: {}\".format(kw))\n\n        exp = Expecter(self, searcher_re(pattern_list), searchwindowsize)",
+  'expect_list ignores the legacy spelling async=True (blocks instead of returning a coroutine)')
+m('C17', 'prompt-false-becomes-true', PX, "        if i==1:\n            return False\n        return True", "        return True",
+  'prompt() returns True on timeout')
+m('C12', 'default-timeout-means-none', RUN, "    if timeout == -1:\n        child = spawn(command, maxread=2000, logfile=logfile, cwd=cwd, env=env,\n                        **kwargs)",
+  "    if timeout == -1:\n        child = spawn(command, maxread=2000, logfile=logfile, cwd=cwd, env=env,\n                        **kwargs)\n        child.logfile_read = None\n        events = None",
+  'run(timeout=-1) forgets the event table')
+m('C16', 'existing-echoing-spawn-not-silenced', RW, "            self.child.setecho(False)\n            self.child.waitnoecho()\n", "            pass\n",
+  'a wrapper around an existing spawn leaves echo on: every result contains the command')
+
+
 def main():
     os.makedirs(OUT, exist_ok=True)
     for f in os.listdir(OUT):
